@@ -638,6 +638,8 @@ pub struct BenchSpec {
     pub hold_port_clones: bool,
     /// Call `set_clock_tolerance` before `set_clock` (instead of after).
     pub tolerance_first: bool,
+    /// Configure the step timeout with `Simulation::set_timeout` after `init` (instead of `SimInit::set_timeout`).
+    pub timeout_after_init: bool,
 }
 
 impl BenchSpec {
@@ -654,6 +656,7 @@ impl BenchSpec {
             timeout_ms: 0,
             hold_port_clones: false,
             tolerance_first: false,
+            timeout_after_init: false,
         }
     }
     /// Fully qualified name of node i.
@@ -1594,13 +1597,16 @@ pub fn build(spec: &Arc<BenchSpec>, w: &Arc<W>) -> Built {
             sim_init = sim_init.set_clock_tolerance(Duration::from_nanos(t));
         }
     }
-    if spec.timeout_ms != 0 {
+    if spec.timeout_ms != 0 && !spec.timeout_after_init {
         sim_init = sim_init.set_timeout(Duration::from_millis(spec.timeout_ms));
     }
     w.log(Ev::Cmd(0));
     let r = panic::catch_unwind(AssertUnwindSafe(|| sim_init.init(mt(0))));
     let (simu, sched, res) = match r {
-        Ok(Ok((simu, sched))) => {
+        Ok(Ok((mut simu, sched))) => {
+            if spec.timeout_ms != 0 && spec.timeout_after_init {
+                simu.set_timeout(Duration::from_millis(spec.timeout_ms));
+            }
             *clock_handle.lock().unwrap() = Some((sched.clone(), addrs.clone()));
             if fl.iter().any(|f| matches!(f, Flavour::SyncPlain | Flavour::AsyncPlain)) {
                 w.set_sched(Some(sched.clone()));
